@@ -87,7 +87,7 @@ Theorem C03_zero_event_file_raises : forall f, wf_file f -> f_blocks f = [] ->
   arrays_gen chk false fuel (enc_file f) (-1) pb names sched = RThrow RConcatEmpty.
 Proof. intros f Hwf He chk fuel pb names sched Hpb. apply arrays_zero_blocks_raises; [assumption|reflexivity|assumption]. Qed.
 Print Assumptions C03_zero_event_file_raises.
-(* ... with the repaired batch loop (proposed_fixes/C04_raw_reader_batch_loop.diff, lfix = true) the zero-event file
+(* ... with the repaired batch loop (proposed_fixes/C04_raw_reader_batch_loop.diff = /repo commits b37e1e6 + 17ed0bd, lfix = true) the zero-event file
    is read as the empty array, so the round trip then holds for any number of events *)
 Theorem C03_zero_event_file_repaired : forall f, wf_file f -> f_blocks f = [] ->
   forall chk fuel pb dets sched, 1 <= pb -> (forall n, Permutation (sched n) (seq 0 n)) ->
